@@ -26,7 +26,7 @@ def check(ctx, src):
     ctx.functions.add(f"{REL}:hy_eval_user")
     body = pyq.body_without_doc(f)
     calls = [c for c in pyq.calls(f) if dotted(c.func) == "hy_eval"]
-    ctx.require(len(calls) == 1, f"expected exactly one hy_eval call in hy_eval_user, found {len(calls)}")
+    ctx.need(len(calls) == 1, f"expected exactly one hy_eval call in hy_eval_user, found {len(calls)}")
     call = calls[0]
     tries = pyq.protecting_tries(call, f)
     key = f"{REL}|hy_eval_user"
@@ -121,12 +121,12 @@ def check(ctx, src):
     ctx.functions.add(f"{REL}:hy_eval")
     key = f"{REL}|hy_eval"
     hc = [c for c in pyq.calls(he) if dotted(c.func) == "hy_compile"]
-    ctx.require(len(hc) == 1, "hy_eval no longer calls hy_compile exactly once")
+    ctx.need(len(hc) == 1, "hy_eval no longer calls hy_compile exactly once")
     ge = [k for k in hc[0].keywords if k.arg == "get_expr"]
     ctx.check(bool(ge) and isinstance(ge[0].value, ast.Constant) and ge[0].value.value is True, "EVAL-RETURN", key + "|get_expr",
               "hy_compile is not called with get_expr=True", REL, hc[0].lineno, detail="get_expr=True")
     tgt = hc[0]._parent.targets[0] if isinstance(hc[0]._parent, ast.Assign) else None
-    ctx.require(isinstance(tgt, ast.Tuple) and len(tgt.elts) == 2, "hy_eval no longer unpacks (module, expression) from hy_compile")
+    ctx.need(isinstance(tgt, ast.Tuple) and len(tgt.elts) == 2, "hy_eval no longer unpacks (module, expression) from hy_compile")
     v_ast, v_expr = tgt.elts[0].id, tgt.elts[1].id
     evals = [c for c in pyq.calls(he) if dotted(c.func) == "eval"]
     ex = [c for c in evals if c.args and isinstance(c.args[0], ast.Call) and dotted(c.args[0].func) == "compile" and norm(c.args[0].args[0]) == v_ast]
